@@ -759,6 +759,15 @@ pub fn mixed_focus(seed: u64, prop: &str) -> Focus {
     table[r.weighted(&w)].0
 }
 
+/// A trace without any connection life-cycle faults (base traces of the crash-point enumeration).
+pub fn generate_base(seed: u64) -> Trace {
+    let focus = [Focus::Replication, Focus::Events, Focus::Packing, Focus::Visibility, Focus::Acks][(seed % 5) as usize];
+    let mut g = Gen::new(seed, focus);
+    g.en_conn = false;
+    g.en_restart = false;
+    g.generate()
+}
+
 pub fn generate(seed: u64, prop: &str) -> Trace {
     Gen::new(seed, mixed_focus(seed, prop)).generate()
 }
